@@ -207,7 +207,10 @@ pub(crate) fn wf_path(v: &PathView) -> bool {
             match v.entries[i] {
                 EntryView::Schedule { preemptions, initial_active, threads, prev, .. } => {
                     // A6: the u8 preemption counter does not overflow (debug builds would panic)
-                    ok = ok && count_of(&threads, ACTIVE) <= 1 && prev == prev_schedule(v, i) && preemptions < u8::MAX;
+                    // every committed schedule branch has exactly one thread being explored; only the
+                    // deepest one may have none (execution finished or deadlocked there)
+                    let nact = count_of(&threads, ACTIVE);
+                    ok = ok && (nact == 1 || (nact == 0 && i + 1 == v.len)) && prev == prev_schedule(v, i) && preemptions < u8::MAX;
                     if let Some(a) = initial_active {
                         ok = ok && (a as usize) < MAX_THREADS;
                     }
@@ -808,3 +811,23 @@ fn c15_schedule_preemptions() {
 }
 
 
+
+impl Path {
+    /// Contract model of `Path::backtrack` (proved for the real function: c01_path_backtrack*):
+    /// `Schedule::backtrack(thread)` is applied to exactly the entries `spec_backtrack_marks` names.
+    pub(crate) fn backtrack_model(&mut self, point: usize, thread_id: thread::Id) {
+        let v = path_view(self);
+        let marks = spec_backtrack_marks(&v, point);
+        let bound = self.preemption_bound;
+        let es = crate::rt::object::verif_kani::store_entries_mut(&mut self.branches);
+        let mut j = 0;
+        while j < LMAX {
+            if j < es.len() && marks[j] {
+                if let Entry::Schedule(s) = &mut es[j] {
+                    s.backtrack(thread_id, bound);
+                }
+            }
+            j += 1;
+        }
+    }
+}
